@@ -439,3 +439,4 @@ impl Drop for Scratch {
         let _ = std::fs::remove_dir_all(&self.0);
     }
 }
+pub mod isogen;
